@@ -1,2 +1,18 @@
 import PeptVerif.Props.C11
 #print axioms Pept.Reorder.C11.slice_inplace_eq
+#print axioms Pept.Reorder.C11.slice_residues
+#print axioms Pept.Reorder.C11.reverse_residues
+#print axioms Pept.Reorder.C11.reverse_reverse
+#print axioms Pept.Reorder.C11.shift_residues
+#print axioms Pept.Reorder.C11.shift_shift_neg_partial
+#print axioms Pept.Reorder.C11.shift_multiple_partial
+#print axioms Pept.Reorder.C11.shift_length_partial
+#print axioms Pept.Reorder.C11.shuffle_residues
+#print axioms Pept.Reorder.C11.sort_residues
+#print axioms Pept.Reorder.C11.reverse_globals_terminals
+#print axioms Pept.Reorder.C11.reverse_intervals
+#print axioms Pept.Reorder.C11.reverseInterval_cover
+#print axioms Pept.Reorder.C11.shift_identity_full_false_on_current_code
+#print axioms Pept.Reorder.C11.split_concat
+#print axioms Pept.Reorder.C11.split_getElem?
+#print axioms Pept.Reorder.C11.slice_slice
